@@ -16,10 +16,13 @@ type NamePattern []ComponentPattern
 const TypeName TLNum = 0x07
 
 func (n Name) String() string {
-	ret := ""
+	// One buffer for the whole name (see compValFmtText.ToString)
+	var sb strings.Builder
 	for _, c := range n {
-		ret += "/" + c.String()
+		sb.WriteByte('/')
+		sb.WriteString(c.String())
 	}
+	ret := sb.String()
 	if len(ret) == 0 {
 		ret = "/"
 	} else if n[len(n)-1].Typ == TypeGenericNameComponent && len(n[len(n)-1].Val) == 0 {
@@ -29,10 +32,12 @@ func (n Name) String() string {
 }
 
 func (n NamePattern) String() string {
-	ret := ""
+	var sb strings.Builder
 	for _, c := range n {
-		ret += "/" + c.String()
+		sb.WriteByte('/')
+		sb.WriteString(c.String())
 	}
+	ret := sb.String()
 	if len(ret) == 0 {
 		ret = "/"
 	} else {
